@@ -2415,6 +2415,65 @@ func c15r25(c *Ctx, r *Report) {
 	r.floor("restarts of the reader in Run", n, 1)
 }
 
+// c20r18: the actions that can take the preview window away (they call previewOpts.Toggle or replace the
+// preview command) are siblings: toggle-preview / hide-preview and change-preview-window cancel the running
+// command when the window is gone; the others have to as well, because once canPreview() is false cursor
+// movements send neither requests nor cancellations (D96: `close` and `change-preview()` did not: the command of
+// a line that was no longer focused stayed alive until it ended by itself).
+func c20r18(c *Ctx, r *Report) {
+	l := c.L
+	r.rule("C20-R18", "E (sibling handlers: whoever can hide the preview can cancel its command)", "P1",
+		"in Terminal.Loop and its closures, from every call of previewOpts.Toggle and from every store into previewOpts.command a direct call of Terminal.cancelPreview is reachable within the same handler",
+		"a preview command keeps running after its window was closed and the cursor has moved on: a superseded command is left running instead of being terminated")
+	loop := l.Fn("fzf", "(*Terminal).Loop")
+	cancel := l.Fn("fzf", "(*Terminal).cancelPreview")
+	tog := l.Fn("fzf", "(*previewOpts).Toggle")
+	fCmd := l.Field("fzf", "previewOpts", "command")
+	fPO := l.Field("fzf", "Terminal", "previewOpts")
+	if loop == nil || cancel == nil || tog == nil || fCmd == nil || fPO == nil {
+		r.unest("anchors", token.NoPos, nil, "anchors Terminal.Loop / cancelPreview / previewOpts.Toggle / previewOpts.command", "cannot resolve")
+		return
+	}
+	n := 0
+	for _, fn := range withClosures(loop) {
+		var cancels []ssa.Instruction
+		eachInstr(fn, func(in ssa.Instruction) {
+			if staticCallee(in) == cancel {
+				cancels = append(cancels, in)
+			}
+		})
+		eachInstr(fn, func(in ssa.Instruction) {
+			what := ""
+			if staticCallee(in) == tog {
+				what = "previewOpts.Toggle()"
+			}
+			if st, ok := in.(*ssa.Store); ok {
+				if f, root := fieldOf(st.Addr); f == fCmd {
+					// the command of Terminal.previewOpts (not of a local copy)
+					if fa, ok := root.(*ssa.FieldAddr); ok {
+						if g, _ := fieldOf(fa); g == fPO {
+							what = "store into previewOpts.command"
+						}
+					}
+				}
+			}
+			if what == "" {
+				return
+			}
+			n++
+			good := false
+			for _, cl := range cancels {
+				if canReach(in, cl) {
+					good = true
+				}
+			}
+			r.check(good, fmt.Sprintf("%s:%s #%d can cancel the running command", relName(rootFn(fn)), what, n), in.Pos(), fn,
+				"cancelPreview is reachable", "the handler can take the preview window away but never cancels the command that is running for it")
+		})
+	}
+	r.floor("handlers that toggle the preview or replace its command", n, 4)
+}
+
 func round10(c *Ctx, r *Report, prop string) {
 	switch prop {
 	case "C01":
@@ -2470,6 +2529,7 @@ func round10(c *Ctx, r *Report, prop string) {
 	case "C20":
 		c20r16(c, r)
 		c20r17(c, r)
+		c20r18(c, r)
 	case "C12":
 		c12r15(c, r)
 	case "C13":
